@@ -83,7 +83,7 @@ func (c12Prop) Assumptions() []string {
 
 var c12Types = []string{"Flat", "Nested", "Ptrs", "Slices", "OneMap", "Timed", "Padded", "Omit", "Nulls", "PtrSlices", "NullPtrs"}
 
-var c12OpNames = []string{"build", "build", "register", "register", "decode", "decode", "decodeproj", "decodeproj", "encode", "encode", "readfile", "readfile", "closebanks", "schema", "fromstring", "decoderef", "decoderef", "parsetime", "parsetime", "encoder"}
+var c12OpNames = []string{"build", "build", "register", "register", "decode", "decode", "decodeproj", "decodeproj", "encode", "encode", "readfile", "readfile", "closebanks", "schema", "fromstring", "decoderef", "decoderef", "parsetime", "parsetime", "encoder", "regshared", "regshared"}
 
 func (c12Prop) Generate(seed uint64, idx int, tier string) *Plan {
 	r := NewRng(seed, uint64(idx)<<8|0x12)
@@ -114,7 +114,7 @@ func (c12Prop) Generate(seed uint64, idx int, tier string) *Plan {
 	if r.P(1, 8) {
 		// parallel burst (see C12Plan.Burst): few operation kinds, many repeats
 		pl.Burst = r.PickInt([]int{30, 100})
-		kinds := [][]string{{"register"}, {"parsetime"}, {"register", "build"}, {"parsetime", "encode"}, {"register", "parsetime"}, {"build", "schema"}, {"decode", "decodeproj"}}[r.Intn(7)]
+		kinds := [][]string{{"register"}, {"parsetime"}, {"register", "build"}, {"parsetime", "encode"}, {"register", "parsetime"}, {"build", "schema"}, {"decode", "decodeproj"}, {"regshared"}, {"regshared", "build"}}[r.Intn(9)]
 		if kinds[0] == "parsetime" {
 			pl.Burst = r.PickInt([]int{1000, 5000}) // a timestamp parse costs about a microsecond
 		}
@@ -469,6 +469,36 @@ type regHolder5 struct {
 	Y int64 `json:"y"`
 }
 
+// Shared registered types: their schemas are put into the schema registry once
+// per plan, before the goroutines start, and every goroutine may then derive
+// the schema of a struct holding them ("regshared"). The registered values are
+// composite (a union's branch slice, a record's field list), so whatever
+// SchemaForType hands out shares memory with the registry entry.
+type SharedLevel int64
+type SharedRec struct {
+	A int64  `json:"a"`
+	B string `json:"b"`
+}
+type SharedHolder struct {
+	ID    int64       `json:"id"`
+	Level SharedLevel `json:"level"`
+	Rec   SharedRec   `json:"rec"`
+	Recs  []SharedRec `json:"recs"`
+}
+
+func registerShared() error {
+	avro.RegisterSchema(reflect.TypeFor[SharedLevel](), avro.Schema{
+		Type:  "union",
+		Union: []avro.Schema{{Type: "long"}, {Type: "null"}},
+	})
+	rs := avro.Schema{Type: "record", Object: &avro.SchemaObject{Type: "record", Name: "SharedRec", Fields: []avro.SchemaRecordField{
+		{Name: "a", Type: avro.Schema{Type: "union", Union: []avro.Schema{{Type: "long"}, {Type: "null"}}}},
+		{Name: "b", Type: avro.Schema{Type: "union", Union: []avro.Schema{{Type: "null"}, {Type: "string"}}}},
+	}}}
+	avro.RegisterSchema(reflect.TypeFor[SharedRec](), rs)
+	return nil
+}
+
 var regTypes = []reflect.Type{reflect.TypeFor[RegT0](), reflect.TypeFor[RegT1](), reflect.TypeFor[RegT2](), reflect.TypeFor[RegT3](), reflect.TypeFor[RegT4](), reflect.TypeFor[RegT5]()}
 var regHolders = []reflect.Type{reflect.TypeFor[regHolder0](), reflect.TypeFor[regHolder1](), reflect.TypeFor[regHolder2](), reflect.TypeFor[regHolder3](), reflect.TypeFor[regHolder4](), reflect.TypeFor[regHolder5]()}
 
@@ -686,6 +716,30 @@ func (env *c12Env) execOp(g int, op C12Op, alone bool) (res string) {
 		}
 		v := env.values[ti][op.B%len(env.values[ti])]
 		return "fromstring " + hashBytes(ownEncoding(c, v))
+	case "regshared":
+		s, err := avro.SchemaForType(SharedHolder{})
+		if err != nil {
+			return "regshared schema err: " + err.Error()
+		}
+		js, err := s.Marshal()
+		if err != nil {
+			return "regshared marshal err: " + err.Error()
+		}
+		c, err := s.Codec(SharedHolder{})
+		if err != nil {
+			return "regshared codec err: " + err.Error() + " schema=" + string(js)
+		}
+		v := SharedHolder{ID: int64(op.A), Level: SharedLevel(op.B % 9), Rec: SharedRec{A: int64(op.B), B: fmt.Sprint("s", op.A%5)}}
+		for i := 0; i < op.B%3; i++ {
+			v.Recs = append(v.Recs, SharedRec{A: int64(i + op.A), B: fmt.Sprint("r", i)})
+		}
+		enc := ownEncoding(c, reflect.ValueOf(&v).Elem())
+		var back SharedHolder
+		rb := avro.NewReadBuf(enc)
+		err = c.Read(rb, unsafe.Pointer(&back))
+		res := fmt.Sprintf("regshared schema=%s enc=%s back=%+v err=%v left=%d", hashBytes(js), hashBytes(enc), back, err, rb.Len())
+		rb.ExtractResourceBank().Close()
+		return res
 	case "schema":
 		s, err := avro.SchemaForType(reflect.New(d.Type).Elem().Interface())
 		if err != nil {
@@ -744,6 +798,9 @@ func (env *c12Env) execOp(g int, op C12Op, alone bool) (res string) {
 
 func newC12Env(pl *C12Plan) (*c12Env, error) {
 	env := &c12Env{ng: len(pl.Ops)}
+	if err := registerShared(); err != nil {
+		return nil, err
+	}
 	r := NewRng(pl.VSeed, 0x12e)
 	for _, name := range c12Types {
 		d := typeByName(name)
